@@ -363,26 +363,43 @@ def build(case):
 
 
 def scaled_tri_check(seed):
-    """implicit triangle normals at the ends of the float32 range: integer meshes times 2^k (exact in float32), unbound and bound.
-    Returns None or (signature, text)"""
+    """the generators away from unit scale and away from float32 arrays: integer meshes times 2^k (exact in float32); implicit triangle
+    normals at the ends of the float32 range, generateNormals at small and large modelling scales; unbound, bound with a float32 and with
+    a float64 matrix (numpy's default dtype). Returns None or (signature, text)"""
     import random
     import numpy
     import collada
     from collada import source, geometry
     rng = random.Random('c18s/%s' % seed)
     verts, tris, kinds = gen_mesh(rng)
-    k = rng.choice([rng.randint(-55, -38), rng.randint(32, 45), rng.randint(-30, 30)])
+    gen = rng.random() < 0.5 and 'degenerate' not in kinds
+    if gen:
+        k = rng.choice([rng.randint(-22, -12), rng.randint(8, 18), 0, 0])
+    else:
+        k = rng.choice([rng.randint(-55, -38), rng.randint(32, 45), rng.randint(-30, 30)])
     arr = numpy.array(verts, dtype=numpy.float32) * numpy.float32(2.0 ** k)
     doc = collada.Collada()
     geom = geometry.Geometry(doc, 'g', 'g', [source.FloatSource('pos', arr.reshape(-1), ('X', 'Y', 'Z'))])
     il = source.InputList()
     il.addInput(0, 'VERTEX', '#pos')
     ts = geom.createTriangleSet(numpy.array(tris, dtype=numpy.int32).reshape(-1), il, 'mat')
-    obj = ts if rng.random() < 0.6 else ts.bind(numpy.identity(4, dtype=numpy.float32), {})
+    how = rng.choice(['unbound', 'unbound', 'bind32', 'bind64', 'bind64'])
+    if how == 'unbound':
+        obj = ts
+    else:
+        obj = ts.bind(numpy.identity(4, dtype=numpy.float32 if how == 'bind32' else numpy.float64), {})
     V, T = extract(obj)
+    where = 'coordinates scaled by 2^%d, %s' % (k, how)
+    if gen:
+        with warnings.catch_warnings():
+            warnings.simplefilter('ignore')
+            bad, _ = check_gen(obj, V, T)
+        if bad:
+            return ('gennormals:%s:scaled' % bad[0], '%s: %s' % (where, bad[1]))
+        return None
     bad, _ = check_tri_normals(obj, V, T)
     if bad:
-        return ('%s:scaled' % bad[0], 'coordinates scaled by 2^%d: %s' % (k, bad[1]))
+        return ('%s:scaled' % bad[0], '%s: %s' % (where, bad[1]))
     return None
 
 
@@ -886,9 +903,9 @@ def run(ctx):
             ctx.violation(sig, 'correspondence Pyc.Normals <-> collada.triangleset broke: %s; the direct oracle found no failing input on this '
                           'case (theorems of Pyc/Props/C18.lean no longer describe the code)' % div,
                           dict(kind='correspondence', case=case, model=m), found_input=False)
-    for i in range(ctx.n(400, 8000)):
+    for i in range(ctx.n(600, 12000)):
         sseed = ctx.rng.randrange(10 ** 9)
-        ctx.count('implicit-triangle-normals:scaled-mesh')
+        ctx.count('scaled-mesh')
         try:
             sb = scaled_tri_check(sseed)
         except Exception as e:
